@@ -160,7 +160,7 @@ def sizes_for(maxuse, quick, variant):
     if quick:
         stride = 104 if variant == "plain" else 616
     else:
-        stride = 8 if variant == "plain" else 40
+        stride = 40 if variant == "plain" else 232
     ns = list(range(0, top, stride))
     # dense (all requests are multiples of 4) just above zero and around the full size
     if variant == "plain":
@@ -309,7 +309,7 @@ def run(ctx):
                        "(stride %s bytes, every 4-16 bytes near zero and near the full size) x {plain, asan}, 3 steps each in a "
                        "forked child; %d distinct observable event sequences validated by ArenaStepTrace; non-trivial = the run "
                        "hit a warning, an error or died; distinct = (model, build, N)" % (
-                           nruns, len(models), "104 / 616(asan)" if ctx.quick else "8 / 40(asan)", len(traces)))
+                           nruns, len(models), "104 / 616(asan)" if ctx.quick else "40 / 232(asan)", len(traces)))
 
 
 def replay(ctx, rp):
